@@ -4,18 +4,29 @@
 
 static int disc_tos(uint8_t t) { return t == 0 || t == 1; }
 
+/* Reference arbiter.  Values: NONE, a station X (active mapper), TOP (unconstrained until the next Reset), or
+ * OPENED|X: a command (Emit / Query / QueryLargeTlv with a non-zero sequence number) arrived from X while no
+ * mapper was active.  The statement keeps such commands inside its domain ("... or while none is active") but
+ * does not say whether they make X the mapper.  Either way a following Discover from X must be answered
+ * (X is the mapper, or nobody is); a Discover from somebody else is unconstrained (silence if X became the
+ * mapper, a Hello if nobody did), and after it the arbiter no longer knows: TOP. */
 int arb_step(arb *a, const pev *e) {
     if (!disc_tos(e->tos)) return -2;
     switch (e->opcode) {
         case 0x00:
             if (a->v == ARB_TOP) return -1;
             if (a->v == ARB_NONE) { a->v = e->realsrc; return 1; }
+            if (a->v & ARB_OPENED) {
+                if ((a->v & 0x7F) == e->realsrc) { a->v = e->realsrc; return 1; }
+                a->v = ARB_TOP; return -1;
+            }
             return a->v == e->realsrc ? 1 : 0;
         case 0x08: a->v = ARB_NONE; return -2;
         case 0x02: case 0x06: case 0x0B:
-            /* a command from the active mapper changes nothing; from anybody else (or while no
-             * mapper is active) the property leaves a take-over unconstrained until the next Reset */
-            if (a->v != e->realsrc) a->v = ARB_TOP;
+            if (a->v == ARB_TOP || a->v == e->realsrc) return -2;          /* command from the active mapper: no change */
+            if (a->v == ARB_NONE) { a->v = (uint8_t)(ARB_OPENED | e->realsrc); return -2; }
+            if ((a->v & ARB_OPENED) && (a->v & 0x7F) == e->realsrc) return -2;
+            a->v = ARB_TOP;                                                  /* a stranger's command: take-over unconstrained */
             return -2;
         default: return -2;
     }
